@@ -277,7 +277,7 @@ def cases(ctx: Ctx):
     ts = t_slots()
     for present in subsets_edge(ts, 2):
         yield {"k": "cmd", "cmd": t_desc(rng, present, rnd_data(rng))}
-    for _ in range(2500 if quick else 20000):
+    for _ in range(8000 if quick else 40000):
         present = [s for s in ts if rng.random() < rng.choice([0.15, 0.5, 0.85])]
         yield {"k": "cmd", "cmd": t_desc(rng, present, rnd_data(rng)), "stream": rng.choice(["bytes", "bytes", "bytesio"])}
     # every enum member x boundary ints on a fixed shape
